@@ -22,10 +22,11 @@ type c13Spec struct {
 	Pattern string   `json:"pattern"`
 	Comp    lib.Comp `json:"comp"`
 	Save    string   `json:"save"` // every | every2 | every7 | once-each | none
+	PopEvery int     `json:"popEvery"` // PopCheckpoint is only called at every n-th message boundary (a consumer whose ShouldSave answers false in between)
 }
 
 var c13Sizes = []int{0, 1, 127, 128, 16383, 16384, 32764, 32765, 32766, 32767, 32768, 32769, 32770, 32771, 65535, 65536, 65537, 1*lib.MB - 1, 1 * lib.MB, 1*lib.MB + 1}
-var c13Patterns = []string{"boundary-mix", "large-then-small", "growing", "all-empty", "many-small", "huge", "types"}
+var c13Patterns = []string{"boundary-mix", "large-then-small", "growing", "all-empty", "many-small", "huge", "types", "huger"}
 
 func c13Messages(seed uint64, pattern string) []proto.Message {
 	r := lib.NewRng(lib.Mix(seed, 1313))
@@ -68,6 +69,9 @@ func c13Messages(seed uint64, pattern string) []proto.Message {
 		}
 	case "huge":
 		out = append(out, dataOp(4*lib.MB), dataOp(4*lib.MB+1), dataOp(3), dataOp(0), dataOp(32768))
+	case "huger": // nothing in the format bounds a message: bsdiff controls carry whole add/copy regions
+		out = append(out, dataOp(100), dataOp(4*lib.MB+65), &bsdiff.Control{Add: payload(5*lib.MB + 17), Copy: payload(3), Seek: -7}, dataOp(0),
+			&bsdiff.Control{Copy: payload(r.PickInt([]int{6 * lib.MB, 9*lib.MB + 1}))}, dataOp(1))
 	case "sized": // >= 44 MiB so that brotli q>=4 emits checkpoints at all
 		for i := 0; i < 460; i++ {
 			out = append(out, &pwr.SyncOp{Type: pwr.SyncOp_DATA, Data: lib.RandomBytes(int64(96*lib.KB+i%5), r.Uint64())})
@@ -111,10 +115,10 @@ func c13Cases(tier string, seed uint64, flavor string) []lib.Case {
 	for _, comp := range comps {
 		for q := 0; q < nseq; q++ {
 			pat := c13Patterns[q%len(c13Patterns)]
-			if pat == "huge" && comp.Algo == "brotli" && comp.Quality >= 10 && q >= len(c13Patterns) {
-				pat = "boundary-mix" // brotli q10/11 on 8 MiB is too slow to repeat
+			if (pat == "huge" || pat == "huger") && comp.Algo == "brotli" && comp.Quality >= 10 && (q >= len(c13Patterns) || pat == "huger") {
+				pat = "boundary-mix" // brotli q10/11 on many MiB is too slow to repeat
 			}
-			s := c13Spec{Seed: lib.Mix(seed, 13, uint64(q)), Pattern: pat, Comp: comp, Save: saves[i%len(saves)]}
+			s := c13Spec{Seed: lib.Mix(seed, 13, uint64(q)), Pattern: pat, Comp: comp, Save: saves[i%len(saves)], PopEvery: []int{1, 1, 2, 3, 5}[i%5]}
 			i++
 			cases = append(cases, lib.Case{Seed: s.Seed, Kind: pat, Spec: lib.MustSpec(s)})
 		}
@@ -256,8 +260,14 @@ func c13Run(c lib.Case, env *lib.Env) lib.Result {
 				rctx.WantSave()
 				wantBefore++
 			}
-			// the patcher's pattern: WantSave, then PopCheckpoint, then ReadMessage
-			if cp := rctx.PopCheckpoint(); cp != nil {
+			// the patcher's pattern: WantSave, then PopCheckpoint, then ReadMessage - but only when its
+			// consumer wants to save, so a pop may come several messages after the checkpoint was made
+			popNow := s.PopEvery <= 1 || i%s.PopEvery == 0 || i == n
+			var cp *wire.MessageReaderCheckpoint
+			if popNow {
+				cp = rctx.PopCheckpoint()
+			}
+			if cp != nil {
 				var gb bytes.Buffer
 				if err := gob.NewEncoder(&gb).Encode(cp); err != nil {
 					res.Violate("checkpoint-not-gob-encodable", desc, err.Error())
@@ -336,7 +346,10 @@ func c13Run(c lib.Case, env *lib.Env) lib.Result {
 		res.Violate("no-checkpoint-on-sized-sequence", desc, fmt.Sprintf("%d save requests, 0 checkpoints popped over %d bytes", wantBefore, len(stream)))
 	}
 	res.SetAdd("compression_settings", s.Comp.String())
-	res.Feat = []string{fmt.Sprintf("%s|%s|%s", s.Pattern, s.Comp, s.Save)}
+	res.Feat = []string{fmt.Sprintf("%s|%s|%s|pop%d", s.Pattern, s.Comp, s.Save, s.PopEvery)}
+	if s.PopEvery > 1 {
+		res.Add("sequences_with_delayed_pops", 1)
+	}
 	if c.ID%41 == 0 {
 		res.Sample = map[string]interface{}{"pattern": s.Pattern, "comp": s.Comp.String(), "save": s.Save, "messages": n, "streamBytes": len(stream), "checkpointsPopped": len(cps)}
 	}
